@@ -13,7 +13,7 @@ import (
 
 	"verif/sim/core"
 	"verif/sim/ref"
-	_ "verif/sim/props"
+	"verif/sim/props"
 )
 
 type violationOut struct {
@@ -63,6 +63,14 @@ func die(code int, f string, a ...interface{}) {
 }
 
 func main() {
+	if len(os.Args) == 3 && os.Args[1] == "-l3tracee" {
+		props.L3TraceeMain(os.Args[2])
+		return
+	}
+	if len(os.Args) == 3 && os.Args[1] == "-l3exp" {
+		props.L3ExpMain(os.Args[2])
+		return
+	}
 	prop := flag.String("prop", "", "property id")
 	tier := flag.String("tier", "quick", "quick|thorough")
 	seed := flag.Uint64("seed", 1, "VERIF_SEED")
@@ -76,6 +84,7 @@ func main() {
 	progress := flag.Bool("progress", false, "print every run index to stderr before executing it")
 	samples := flag.Int("samples", 3, "scripts to include as samples")
 	dump := flag.Int("dump", -1, "print the script of this run index and exit")
+	candidates := flag.String("candidates", "", "print the shrink candidates of the script in this replay file as a JSON array")
 	flag.Parse()
 
 	debug.SetGCPercent(400)
@@ -91,6 +100,14 @@ func main() {
 	case *dump >= 0:
 		r := core.NewRand(core.Mix(*seed, p.ID(), uint64(*dump)))
 		json.NewEncoder(os.Stdout).Encode(p.Generate(*dump, r, *tier))
+		return
+	case *candidates != "":
+		_, sc := loadReplay(p, *candidates)
+		cs := p.Shrinks(sc)
+		if cs == nil {
+			cs = []core.Script{}
+		}
+		json.NewEncoder(os.Stdout).Encode(cs)
 		return
 	case *info:
 		json.NewEncoder(os.Stdout).Encode(map[string]interface{}{"plan": p.Plan(*tier), "meta": p.Meta()})
